@@ -295,6 +295,7 @@ def run(ctx):
         pf = payload_field(prog, tree)
         fns = [f for f in prog.fns.values() if f.self_adt == tree and not f.is_closure]
         n_writes = 0
+        props_w = list(props) + ['C02']      # a key written into a node that stays where it is can break the search order
         for f in fns:
             b = f.body
             for st in b.stores:
@@ -305,14 +306,14 @@ def run(ctx):
                 if not fl or fl[0] in LINKS or fl[0] == 'color':
                     if not fl:
                         n_writes += 1
-                        ctx.add(RULE, f, 'payload-write(<whole node>)', 'violation', 'a whole arena node is overwritten', props, st.span[1] if st.span else f.line)
+                        ctx.add(RULE, f, 'payload-write(<whole node>)', 'violation', 'a whole arena node is overwritten', props_w, st.span[1] if st.span else f.line)
                     continue
                 n_writes += 1
                 line = st.span[1] if st.span else f.line
                 sig = 'payload-write(%s)' % '.'.join(fl)
                 idx = strip(acc[2])
                 if fl != (pf,):
-                    ctx.add(RULE, f, sig, 'violation', 'a stored payload is updated field by field (%s): key and value of one entry can come from different sources' % '.'.join(fl), props, line)
+                    ctx.add(RULE, f, sig, 'violation', 'a stored payload is updated field by field (%s): key and value of one entry can come from different sources' % '.'.join(fl), props_w, line)
                     continue
                 val = strip(st.value)
                 if f.path in removals:
@@ -328,25 +329,25 @@ def run(ctx):
                         # payload write to that slot (here or in a helper) may precede the read
                         over = overwritten_before(prog, f, srcs[0][0], [x for x in walk(val) if x.kind in ('load', 'ref') and prog.node_field(x) and strip(prog.node_field(x)[0]) is srcs[0][0]], pf, st)
                         if over is not None:
-                            ctx.add(RULE, f, sig, 'violation', 'the payload moved into the removed slot is read from slot %s after that slot\'s own payload was overwritten (%s): the entry that was stored there is lost and another one is duplicated' % (show(srcs[0][0], 2), over), props, line)
+                            ctx.add(RULE, f, sig, 'violation', 'the payload moved into the removed slot is read from slot %s after that slot\'s own payload was overwritten (%s): the entry that was stored there is lost and another one is duplicated' % (show(srcs[0][0], 2), over), props_w, line)
                             continue
                     if ok:
                         # which other slot: the one entry that can take the removed entry's place without disturbing the key
                         # order - the leftmost entry of its right subtree (or, mirrored, the rightmost of its left subtree)
                         why_s = in_order_neighbour(prog, f, srcs[0][0], idx)
                         if why_s:
-                            ctx.add(RULE, f, sig.replace('payload-write', 'payload-source'), 'violation', 'the entry moved into the removed slot is not its in-order neighbour: ' + why_s + ' (the keys around the slot are then out of order and lookups miss entries that are present)', props, line)
+                            ctx.add(RULE, f, sig.replace('payload-write', 'payload-source'), 'violation', 'the entry moved into the removed slot is not its in-order neighbour: ' + why_s + ' (the keys around the slot are then out of order and lookups miss entries that are present)', props_w, line)
                     if ok:
-                        ctx.add(RULE, f, sig, 'ok', 'the removal overwrites the removed slot with the whole payload of one other slot (%s)' % show(srcs[0][0], 3), props, line)
+                        ctx.add(RULE, f, sig, 'ok', 'the removal overwrites the removed slot with the whole payload of one other slot (%s)' % show(srcs[0][0], 3), props_w, line)
                     else:
-                        ctx.add(RULE, f, sig, 'violation', 'the removal writes a payload that is not the whole payload of a single other slot (sources: %s; target %s)' % ([('.'.join(s[1]), show(s[0], 2)) for s in srcs], show(idx, 2)), props, line)
+                        ctx.add(RULE, f, sig, 'violation', 'the removal writes a payload that is not the whole payload of a single other slot (sources: %s; target %s)' % ([('.'.join(s[1]), show(s[0], 2)) for s in srcs], show(idx, 2)), props_w, line)
                 else:
                     ok = val.kind == 'param'
                     fresh = all(a[0] == 'pop' for a in origins(prog, f, idx)) if origins(prog, f, idx) else False
                     if ok and fresh:
-                        ctx.add(RULE, f, sig, 'ok', 'insertion stores its payload argument whole into the fresh slot', props, line)
+                        ctx.add(RULE, f, sig, 'ok', 'insertion stores its payload argument whole into the fresh slot', props_w, line)
                     else:
-                        ctx.add(RULE, f, sig, 'violation', 'payload written outside insertion/removal, or not the whole payload argument into a fresh slot (%s into %s)' % (show(val, 2), show(idx, 2)), props, line)
+                        ctx.add(RULE, f, sig, 'violation', 'payload written outside insertion/removal, or not the whole payload argument into a fresh slot (%s into %s)' % (show(val, 2), show(idx, 2)), props_w, line)
             # &mut to a stored payload handed to foreign code
             for c in b.calls:
                 if prog.classify(c) == 'crate':
